@@ -48,6 +48,46 @@ Proof.
     exists sl. split; [assumption|]. rewrite H2, map_app. simpl. rewrite <- app_assoc. reflexivity.
 Qed.
 
+Lemma write_surfs_ids surfs used : forall acc sl,
+  write_surfs surfs used acc = (sl, None) -> map sl_id sl = map sl_id acc ++ used.
+Proof.
+  induction used as [|k r IH]; intros acc sl H; simpl in H.
+  - inversion H; subst. rewrite app_nil_r. reflexivity.
+  - destruct (lookup k surfs) as [s|]; [|discriminate].
+    apply IH in H. rewrite H, map_app. simpl. rewrite <- app_assoc. reflexivity.
+Qed.
+
+(* ---- boundary conditions (repaired writeT4BoundCond) --------------------------------- *)
+Lemma bc_entries_spec ren used bcs : forall acc l,
+  (forall p, In p acc -> In (fst p) used) -> NoDup (keys acc) ->
+  bc_entries ren used bcs acc = Ok l ->
+  (forall p, In p l -> In (fst p) used) /\ NoDup (keys l).
+Proof.
+  induction bcs as [|[k c] r IH]; intros acc l Hacc Hnd H; simpl in H.
+  - inversion H; subst. split; assumption.
+  - destruct (zmem (bc_target ren k) used) eqn:Eu; [|eapply IH; eassumption].
+    apply zmem_In in Eu.
+    destruct (lookup (bc_target ren k) acc) as [kind0|] eqn:El.
+    + destruct (String.eqb kind0 (bc_kind c)); [|discriminate]. eapply IH; eassumption.
+    + eapply IH; [| |exact H].
+      * intros p Hp. apply in_app_or in Hp. destruct Hp as [Hp|[<-|[]]]; [apply Hacc; assumption|assumption].
+      * rewrite keys_app. simpl. apply NoDup_app_single; [assumption|].
+        intros Hin. apply lookup_in_keys in Hin. destruct Hin as [a Ha]. congruence.
+Qed.
+
+Lemma write_bc_spec ren used bcs b :
+  write_bc ren used bcs = Ok (Some b) ->
+  fst b = N.of_nat (List.length (snd b)) /\ (forall p, In p (snd b) -> In (snd p) used) /\
+  NoDup (map snd (snd b)).
+Proof.
+  unfold write_bc. destruct (bc_entries ren used bcs []) as [l|e] eqn:Eb; [|discriminate].
+  destruct (bc_entries_spec ren used bcs [] l) as [H1 H2]; [intros p []|constructor|assumption|].
+  destruct l as [|p0 r0] eqn:El; [discriminate|]. rewrite <- El in *. intros H. inversion H; subst b; clear H.
+  simpl. split; [rewrite map_length; reflexivity|]. split.
+  - intros p Hp. apply in_map_iff in Hp. destruct Hp as [q [<- Hq]]. simpl. apply H1. assumption.
+  - rewrite map_map. simpl. exact H2.
+Qed.
+
 (* ---- volumes ------------------------------------------------------------------------ *)
 Definition not_skipped (skipped : list Z) (p : Z * volume) : bool := negb (zmem (fst p) skipped).
 
@@ -247,9 +287,12 @@ Qed.
 Lemma append_assoc3 a b c : ((a +++ b) +++ c = a +++ (b +++ c))%string.
 Proof. induction a as [|x a IH]; simpl; [reflexivity|]. rewrite IH. reflexivity. Qed.
 
-Theorem write_wf w : wf_state w -> exists f, write_file w = Complete f /\ wf_file f.
+Theorem write_wf ren w :
+  wf_state w ->
+  exists f, wf_file f /\
+    (write_file ren w = Complete f \/ exists e, write_file ren w = Raised f e /\ f_bc f = None).
 Proof.
-  intros [Hrefs Hsides Hsome Hskf Hsku Hcells Hnorm Hbcs].
+  intros [Hrefs Hsides Hsome Hskf Hsku Hcells Hnorm].
   destruct Hrefs as [Hkeys Hsurfs Hops].
   unfold write_file.
   destruct Hsome as [k0 [v0 [s0 [Hv0 Hs0]]]].
@@ -287,20 +330,25 @@ Proof.
   { destruct (w_skip_geomcomp w); [exists None; split; [reflexivity|left; reflexivity]|].
     rewrite Hg1. exists (Some g). split; [reflexivity|right; reflexivity]. }
   destruct Hgcm as [gc [Hgc1 Hgc2]]. rewrite Hgc1.
-  eexists. split; [reflexivity|].
-  (* the file is well formed *)
-  assert (Hsurf_ids : forall s, In s (map sl_id sl) <-> In s (used_surfaces (w_vols w))).
-  { intros s. rewrite Hsl2, EU. tauto. }
+  (* the file is well formed whatever boundary block is written, as long as it is one
+     write_bc can produce *)
+  assert (Hsurf_ids : forall s, In s (map sl_id sl) <-> In s (u1 :: ur)).
+  { intros s. rewrite Hsl2. tauto. }
   assert (Hvol_ids : map vl_id vl = keys (filter (not_skipped (w_skipped w)) (w_vols w))).
   { apply write_vols_ids. }
-  constructor; unfold surf_ids, vol_ids; simpl.
+  assert (Hwf : forall bc,
+            match bc with
+            | None => True
+            | Some b => fst b = N.of_nat (List.length (snd b)) /\ forall p, In p (snd b) -> In (snd p) (u1 :: ur)
+            end -> wf_file (mkFile sl vl comps gc bc)).
+  { intros bc Hbc. constructor; unfold surf_ids, vol_ids; simpl.
   - rewrite Hsl2, <- EU. apply mkset_NoDup.
   - fold vl. rewrite Hvol_ids. apply NoDup_keys_filter. assumption.
   - apply Forall_forall. intros l Hl. fold vl in Hl. unfold vl in Hl. apply write_vols_In in Hl.
     destruct Hl as [k [v [A [B ->]]]].
     destruct (volume_str_counts k v) as [C1 [C2 [C3 [C4 [C5 [C6 [C7 C8]]]]]]].
     constructor; try assumption; unfold surf_ids, vol_ids; cbn [f_surfs f_vols].
-    + intros s Hs. apply Hsurf_ids. apply used_surfaces_In. exists k, v. split; [assumption|].
+    + intros s Hs. apply Hsurf_ids. rewrite <- EU. apply used_surfaces_In. exists k, v. split; [assumption|].
       unfold surface_ids. rewrite C4, C5 in Hs. apply in_app_or in Hs. apply in_or_app.
       destruct Hs as [Hs|Hs]; apply (proj1 (mkset_In _ _)) in Hs; [left|right]; assumption.
     + intros s Hp Hm. rewrite C4 in Hp. rewrite C5 in Hm. apply (proj1 (mkset_In _ _)) in Hp. apply (proj1 (mkset_In _ _)) in Hm.
@@ -335,12 +383,42 @@ Proof.
         rewrite M2. eapply write_compositions_names; [exact M1|].
         eapply comps_of_mat_has; try eassumption. intros [].
       * rewrite Hnamed. apply write_compositions_m0.
-  - destruct (w_skip_bc w); [exact I|]. unfold write_bc.
-    destruct (w_bcs w) as [|b0 br] eqn:EB; [exact I|]. rewrite <- EB.
-    split; simpl.
-    + rewrite map_length. reflexivity.
-    + intros p Hp. apply in_map_iff in Hp. destruct Hp as [[k b] [<- Hp]]. simpl.
-      apply Hsurf_ids. apply used_surfaces_In. eapply Hbcs. rewrite <- EB. eassumption.
+  - destruct bc as [b|]; [|exact I]. destruct Hbc as [B1 B2]. split; [assumption|].
+    intros p Hp. apply Hsurf_ids. apply B2. assumption. }
+  destruct (if w_skip_bc w then Ok None else write_bc ren (u1 :: ur) (w_bcs w)) as [bc|e] eqn:Ebc.
+  - exists (mkFile sl vl comps gc bc). split; [|left; reflexivity].
+    apply Hwf. destruct bc as [b|]; [|exact I].
+    destruct (w_skip_bc w); [discriminate|].
+    destruct (write_bc_spec _ _ _ _ Ebc) as [B1 [B2 _]]. split; assumption.
+  - exists (mkFile sl vl comps gc None). split; [apply Hwf; exact I|].
+    right. exists e. split; reflexivity.
+Qed.
+
+(* the boundary-condition clause holds for EVERY complete run of the writers, without any
+   hypothesis on the tables: each listed surface is defined in the file, listed once, and
+   the declared count is the number of entries *)
+Theorem bc_defined ren w f :
+  write_file ren w = Complete f ->
+  match f_bc f with
+  | None => True
+  | Some b => wf_bc f b /\ NoDup (map snd (snd b))
+  end.
+Proof.
+  unfold write_file. intros H.
+  destruct (used_surfaces (w_vols w)) as [|u1 ur] eqn:EU; [discriminate|].
+  destruct (write_surfs (w_surfs w) (u1 :: ur) []) as [sl [e|]] eqn:Es; [discriminate|].
+  apply write_surfs_ids in Es. simpl in Es.
+  destruct (w_vols w) as [|p0 vr] eqn:EV; [discriminate|]. rewrite <- EV in *.
+  destruct (if w_skip_geomcomp w then Ok None
+            else match construct_geomcomp (w_vols w) (w_cells w) with
+                 | Ok g => Ok (Some g) | Err e => Err e end) as [gc|e]; [|discriminate].
+  destruct (if w_skip_bc w then Ok None else write_bc ren (u1 :: ur) (w_bcs w)) as [bc|e] eqn:Ebc; [|discriminate].
+  inversion H; subst f; clear H. simpl.
+  destruct bc as [b|]; [|exact I].
+  destruct (w_skip_bc w); [discriminate|].
+  destruct (write_bc_spec _ _ _ _ Ebc) as [B1 [B2 B3]].
+  split; [|assumption]. split; [assumption|].
+  intros p Hp. unfold surf_ids. simpl. rewrite Es. apply B2. assumption.
 Qed.
 
 End W.
